@@ -19,21 +19,35 @@ RULE = ("op sequences (constructor empty/new/from_iter + up to 60 inserts over <
         "reaches >=5 keys (crosses the small-size specialisations) or some key is overwritten; distinct by op sequence")
 
 RULE_STATE = (
-    "174 deterministic boundary cases first (a query overriding a model-contributed feature; overriding initial "
+    "one case = ONE SearchApp (configured features parsed by StateModel::try_from from their serde JSON) and a "
+    "sequence of 1-5 queries on it; each query = the features its traversal / access model contribute (stub "
+    "services building the model of the query at hand), its state_features (parsed by the real code from serde JSON), "
+    "0-8+ operations; every query's observables are compared with M / S computed for that query ALONE. "
+    "215 deterministic boundary cases first (a query overriding a model-contributed feature; overriding initial "
     "values of the 4 features of an electric-vehicle model; n = 0..7 configured + k = 0..3 model features with and "
     "without override / with both models declaring the last one; an override at every position of 1..8 features; "
     "configured features re-declared by a model and overridden; one name from both models / twice from one model; "
     "every refusal: unknown name, configured-only name, other type, custom type named like a built-in, other custom "
     "unit, unparsable state_features, a model replacing a configured feature of another kind; accessor errors and "
-    "codec edge values), then random cases: 0-9 configured features of every kind / unit / format over 12 names, "
-    "0-4 traversal-model and 0-2 access-model features (1/3 re-declare an existing name, 9/10 of those with the same "
-    "kind), query state_features absent / unparsable / 0-3 overrides (3/4 valid overrides of model features, at most "
-    "one invalid entry per query), 0-8 operations (get/set/add/round-trip/get-add-get in a random unit of the "
-    "feature's family, the four custom codecs, 1/10 deliberately ill-typed, 1/12 on an undeclared name); observables: "
-    "result class, len, iteration order, slot of each of 13 probe names (observed through get_delta), initial state, "
+    "codec edge values; custom features whose free-text unit label is the name of each of the 12 built-in units, "
+    "configured and as query override, also under names that are unit names; the ends of the integer ranges as "
+    "initial values and set/get round trips (u64::MAX, i64::MAX, i64::MIN, 2^53+-1, the rounding boundaries below "
+    "2^64 / 2^63) and raw slot contents NaN, +-inf, -0.0, +-0.5, 2^63, 2^64, 1e30 read through every codec; sequences "
+    "of 2-5 queries with the same names and other units / initial values, other name sets in between, and another "
+    "vehicle model per query), then random cases: 0-9 configured features of every kind / unit / format over 14 "
+    "names, custom type and unit labels drawn from pools that contain every built-in unit name, integers over the "
+    "whole i64 / u64 range with the sentinels over-represented, 0-4 traversal-model and 0-2 access-model features "
+    "(1/3 re-declare an existing name, 9/10 of those with the same kind), query state_features absent / unparsable / "
+    "0-3 overrides (3/4 valid overrides of model features, at most one invalid entry per query), 1/4 of the cases "
+    "continue with 1-4 follow-up queries on the same application (same query again / same overrides with other "
+    "definitions / models re-declaring the same names with other definitions / an unrelated query), operations: "
+    "get/set/add/round-trip/get-add-get in a random unit of the feature's family, the four custom codecs, raw writes "
+    "into custom slots followed by a codec read, 1/10 deliberately ill-typed, 1/12 on an undeclared name; observables: "
+    "result class, len, iteration order, slot of each of 15 probe names (observed through get_delta), initial state, "
     "and after every operation its result and the whole state vector as binary64 bit patterns; the model built by "
     "SearchApp::build_search_instance must show the same observables as collect_features + extend; non-trivial = "
-    "the final model has >= 5 features or some name is defined more than once; distinct by case")
+    "the final model of some query has >= 5 features, or some name is defined more than once, or the case has more "
+    "than one query; distinct by case")
 
 
 def classify(case, i, m, s):
@@ -63,14 +77,18 @@ def run(chk):
         "specification coq/Model/StateModelSpec.v and the judgement of operations in coq/Model/StateModelRun.v",
         "C09's unit table coq/Gen/UnitTables.v (regenerated from the Rust unit files by the translator on every run)",
         "std::collections::HashMap specified as a finite map with unspecified iteration order",
-        "serde (a feature arrives parsed; the harness builds the JSON of configuration and query with serde itself)",
+        "serde: the models take parsed features; every configured feature and query override of the run is serialised "
+        "by serde from the declared feature and parsed back by the real code, so a feature parsed as something else "
+        "than declared shows in the observables",
         "Rust harness harness/src/bin/c11.rs (stub traversal/access models returning the chosen state_features) and this driver"]
     chk.assumptions = [
         "keys have a decidable equality (Eq + Hash agree)",
         "constructor `new` receives duplicate-free keys (the configured features are a set: a TOML table / JSON object)",
         "a query's state_features is a JSON object (distinct names); when it holds invalid entries of two different kinds "
         "(unknown name and other type) the class of the reported error depends on HashMap order - both are errors",
-        "custom integer features below 2^63; arithmetic theorems are about exact rationals, binary64 is tied by the bit-exact run",
+        "arithmetic theorems are about exact rationals (the integer -> float cast of the custom codecs is its exact "
+        "integer value round53, computed on Z); binary64 is tied by the bit-exact run",
+        "the specification of a query is history-free: what earlier queries on the same SearchApp declared is irrelevant",
         "a state vector handed to get/set/add has the length of the model it belongs to (a shorter one is a RuntimeError / "
         "InvalidStateVariableIndex in the code and in the model)"]
     # the unit table the state model's conversions go through
